@@ -640,7 +640,9 @@ class CallMixin:
                 o = bound.get(p.split('.')[0])
                 a = self.obj_attr(o, p.split('.', 1)[1], node) if (o is not None and o.cls and o.cls.startswith('teneva:')) else o
             else:
-                a = bound.get(p)
+                    a = bound.get(p)
+            if a is None and n == 'gen':
+                a = NONE                      # generator parameter omitted: seeded from OS entropy
             if a is not None and not a.bot:
                 if deep:
                     a = self.elem_of(a)
@@ -651,7 +653,7 @@ class CallMixin:
                     if a.gen:
                         al = al
                 elif n == 'gen':
-                    al = AV(['gen'], gen=a.gen or ['unknown'])
+                    al = self.make_generator(a, node or self.cur_stmt, label)
                     base = BOT
                 else:
                     al = a
